@@ -1,7 +1,8 @@
 """B stand-in for C16: (1) the partition of roots produced by the REAL check_for_loopcarried_dep (multiprocessing replaced by
 synchronous stubs) for all klen in 50..130 x workers in {1,2,3,5,7,16,17,64,200} (exhaustive in that range);
-(2) real processes: for kernels of 50..66 lines (one independent loop-carried cycle per line, AArch64) the parallel search
-with cpu_count patched to {1,2,3,5,16,80} returns exactly the result of the sequential search (threshold patched), and
+(2) real processes: for kernels of 50..66 lines (an 8-link ring, a 2-cycle across distant lines, self-cycles; AArch64) the
+parallel search with cpu_count patched to {1,2,3,5,16,80} and seeded random / reversed delays per worker (completion order
+perturbed) returns exactly the result of the sequential search (threshold patched), and
 two runs of the report differ only in the timestamp line."""
 import os, sys, io
 sys.path.insert(0, os.path.dirname(os.path.abspath(__file__)))
@@ -26,10 +27,33 @@ from osaca.semantics import MachineModel, ArchSemantics, KernelDG
 mm = MachineModel(arch="tx2"); parser = get_parser("aarch64"); sem = ArchSemantics(mm)
 
 def kernel_text(klen):
-    lines = []
-    for i in range(klen):
-        lines.append(f"add x{i}, x{i}, #1" if i < 29 else f"fadd d{i - 29}, d{i - 29}, d{i - 29}" if i < 61 else f"add x{i % 29}, x{i % 29}, #1")
+    """an 8-link ring through lines 1..8 (longer than a worker's chunk when there are many workers), a 2-cycle whose members
+    lie far apart (different workers' chunks), and one independent self-cycle per remaining line"""
+    lines = [f"add x{i + 1}, x{i}, #1" for i in range(7)] + ["add x0, x7, #1"]
+    free = [f"x{r}" for r in (8, 9, 11, 12, 13, 14, 15, 16, 17, 18, 19, 21, 22, 23, 24, 25, 26, 27, 28)]
+    for i in range(8, klen):
+        if i == 10:
+            lines.append("add x10, x20, #1")
+        elif i == klen - 2:
+            lines.append("add x20, x10, #1")
+        elif i - 8 < len(free):
+            lines.append(f"add {free[i - 8]}, {free[i - 8]}, #1")
+        else:
+            d = (i - 8 - len(free)) % 32
+            lines.append(f"fadd d{d}, d{d}, d{d}")
     return "\n".join(lines) + "\n"
+
+import random, time
+_orig_extend = KernelDG._extend_path
+_delays = {}
+
+def _delayed_extend(self, dst_list, kernel, dg, offset):
+    # perturb the order in which workers deliver (children are forked: they inherit the table)
+    if kernel:
+        time.sleep(_delays.get(kernel[0].line_number, 0.0))
+    return _orig_extend(self, dst_list, kernel, dg, offset)
+
+KernelDG._extend_path = _delayed_extend
 
 def lcds(klen, workers, threshold):
     k = parser.parse_file(kernel_text(klen)); sem.add_semantics(k)
@@ -45,9 +69,14 @@ def lcds(klen, workers, threshold):
 sizes = (50, 51, 53, 61) if A.tier != "thorough" else range(50, 67)
 for klen in sizes:
     seq, seq_order = lcds(klen, 1, 10**9)
-    for workers in (1, 2, 3, 5, 16, 80):
+    for workers, perturb in [(1, 0), (2, 1), (3, 1), (5, 1), (5, 2), (16, 1), (16, 2), (80, 1)]:
+        rnd = random.Random(A.seed * 1000 + klen * 10 + perturb)
+        _delays.clear()
+        _delays.update({ln: (rnd.choice((0.0, 0.05, 0.15, 0.3)) if perturb else 0.0) for ln in range(1, klen + 1)})
+        if perturb == 2:  # reversed delivery: the later the chunk the earlier it delivers
+            _delays.update({ln: 0.4 * (1 - ln / klen) for ln in range(1, klen + 1)})
         par, par_order = lcds(klen, workers, 50)
-        R.case(("real", klen, workers), sample=dict(klen=klen, workers=workers, lcds=len(par)))
+        R.case(("real", klen, workers, perturb), sample=dict(klen=klen, workers=workers, lcds=len(par)))
         if par != seq:
             R.fail("C16/parallel-vs-sequential", "C16:parallel", f"klen={klen} workers={workers}: parallel search found {len(par)} LCDs, sequential {len(seq)}; missing {sorted(set(seq) - set(par))[:5]}", dict(klen=klen, workers=workers))
         elif par_order != seq_order:
